@@ -357,6 +357,10 @@ func c18Reference(c c18Case) c18Ref {
 		case "to_string":
 			return ok(disp(r))
 		case "is_int":
+			// beyond the int range "is a whole number" and "is an int" part ways: the name does not say which
+			if math.Abs(r.F) > 9e18 {
+				return c18Ref{Status: "unspec"}
+			}
 			return ok(vB(r.F == math.Trunc(r.F)))
 		case "trunc":
 			if math.Abs(r.F) > 9e18 {
